@@ -8,7 +8,7 @@ import random
 
 NT = ('s', 'a')
 T = ('X', 'Y')
-CHAR = {'X': 'x', 'Y': 'y', 'W': ' ', 'Z': 'z'}
+CHAR = {'X': 'x', 'Y': 'y', 'W': ' ', 'Z': 'z', 'U': '?'}
 
 
 def candidates(nts=NT, ts=T, maxrhs=2):
@@ -170,3 +170,121 @@ def sample(seq, n, rng):
     if len(seq) <= n:
         return seq
     return rng.sample(seq, n)
+
+
+# ---- F_rand: seeded random BNF grammars with more non-terminals/terminals/rules than F_bnf ----------------
+def random_bnf(rng, nnt=None, nts_pool=('s', 'a', 'b', 'c', 'd'), ts=('X', 'Y', 'Z'), nrules=None, maxrhs=3):
+    """A well-formed random grammar: every used non-terminal is defined and reachable from s.
+    Shapes are biased towards what small exhaustive families cannot contain: several levels of
+    nullable/unit rules, mutual recursion among >= 3 non-terminals, bracket-like nesting."""
+    nnt = nnt or rng.choice([3, 3, 4, 4, 5])
+    nts = list(nts_pool[:nnt])
+    nrules = nrules or rng.randint(nnt + 2, nnt + 6)
+    G = set()
+
+    def rand_rhs():
+        style = rng.random()
+        if style < 0.12:
+            return ()
+        if style < 0.27:
+            return (rng.choice(nts),)                                   # unit rule
+        if style < 0.42:
+            return (rng.choice(ts), rng.choice(nts))                    # right recursion
+        if style < 0.52:
+            return (rng.choice(nts), rng.choice(ts))                    # left recursion
+        if style < 0.62:
+            return (rng.choice(ts), rng.choice(nts), rng.choice(ts))    # bracket
+        n = rng.randint(1, maxrhs)
+        return tuple(rng.choice(nts + list(ts) + list(ts)) for _ in range(n))
+    for A in nts:
+        if rng.random() < 0.8:      # a terminating alternative, so that most grammars are productive
+            G.add((A, tuple(rng.choice(ts) for _ in range(rng.choice([0, 1, 1, 2])))))
+        G.add((A, rand_rhs()))
+    tries = 0
+    while len(G) < nrules and tries < 50:
+        tries += 1
+        G.add((rng.choice(nts), rand_rhs()))
+    # keep only what is reachable from s (lark prunes unused rules anyway); every used NT is defined by construction
+    reach = {'s'}
+    ch = True
+    while ch:
+        ch = False
+        for l, rhs in G:
+            if l in reach:
+                for x in rhs:
+                    if x in nts and x not in reach:
+                        reach.add(x)
+                        ch = True
+    G = tuple(sorted((l, r) for l, r in G if l in reach))
+    return G
+
+
+def rename_nts(G, rng):
+    """rename non-terminals other than s to random identifiers (varies hash/iteration order inside lark)"""
+    names = {}
+    for l, _ in G:
+        if l != 's' and l not in names:
+            names[l] = 'n' + ''.join(rng.choice('abcdefghijklmnopqrstuvwxyz') for _ in range(rng.randint(1, 5))) + l
+    return tuple((names.get(l, l), tuple(names.get(x, x) for x in rhs)) for l, rhs in G)
+
+
+def terms_of(G):
+    nts = {l for l, _ in G}
+    return sorted({x for _, rhs in G for x in rhs if x not in nts})
+
+
+def rand_family(n, rng, **kw):
+    seen = set()
+    out = []
+    tries = 0
+    while len(out) < n and tries < n * 5:
+        tries += 1
+        G = random_bnf(rng, **kw)
+        if G in seen or not any(l == 's' for l, _ in G):
+            continue
+        seen.add(G)
+        out.append(G)
+    return out
+
+
+TERM3 = {'X': '"x"', 'Y': '"y"', 'Z': '"z"'}
+
+
+# ---- F_tailrec: mutually tail-recursive non-terminals (rich `includes` relation with cycles and chords) --------
+TAIL_TERMS = ['T' + c.upper() for c in 'abcdefghij']
+for _t in TAIL_TERMS:
+    CHAR[_t] = _t[1].lower()
+TAIL_DEFS = {t: '"%s"' % CHAR[t] for t in TAIL_TERMS}
+
+
+def tailrec_grammar(rng):
+    nnt = rng.choice([3, 4, 4, 5])
+    nts = ['a', 'b', 'c', 'd', 'e'][:nnt]
+    terms = list(TAIL_TERMS[:rng.choice([6, 7, 8])])
+    G = [('s', (terms[0], 'a', terms[1]))]
+    pool = terms[2:]
+    for A in nts:
+        k = rng.choice([1, 2, 2, 3])
+        ts = rng.sample(pool, min(k, len(pool)))
+        for t in ts:            # distinct first terminals per non-terminal: no conflicts from FIRST sets
+            if rng.random() < 0.15:
+                G.append((A, (t,)))
+            else:
+                G.append((A, (t, rng.choice(nts))))
+    A = rng.choice(nts)
+    G.append((A, ()))           # something terminates
+    reach = {'s'}
+    ch = True
+    while ch:
+        ch = False
+        for l, rhs in G:
+            if l in reach:
+                for x in rhs:
+                    if x in nts and x not in reach:
+                        reach.add(x)
+                        ch = True
+    return tuple(sorted(set((l, r) for l, r in G if l in reach)))
+
+
+def grammar_terms(G):
+    return {t: TAIL_DEFS.get(t) or TERM3.get(t) or '"%s"' % CHAR[t] for t in terms_of(G)}
